@@ -217,29 +217,24 @@ def run_big(ck, prop, tier, vh, seed):
     ck.cov['all_honest_runs_at_range_edges'] = [list(b[:4]) for b in big]
 
 
-REFDEAL_NETS = [('qual', 3, 1, 0, -1), ('qual', 4, 2, 1, -1), ('qual', 4, 2, 3, 2), ('qual', 5, 3, 0, 4), ('qual', 6, 2, 5, 1), ('qual', 4, 1, 0, 3),
-                ('jf', 3, 1, 0, -1), ('jf', 4, 2, 2, -1), ('jf', 5, 3, 4, -1)]
-REFDEAL_SHAPES = ['generic', 'zero-const', 'zero-middle', 'zero-lead', 'root', 'equal', 'rminus1', 'two-zeros']
-
-
 def run_refdeal(ck, prop, tier, vh, seed, only_shapes=None):
     """a protocol-following dealer implemented with reference arithmetic deals shaped polynomials (zero coefficients, a root at a
-    participant's point, ...) to real receivers: it must be qualified, and the receivers' keys must be the images of its vector"""
+    participant's point, the opposite of the real participant's polynomial, ...) to real receivers: case matrix and prescribed
+    outcome from specs/dkg/RefDealing.tla; it must be qualified, and the receivers' keys must be the images of its vector"""
+    res = vlib.tlc(SPEC, 'RefDealing', vlib.cfg({}, spec='Spec', invariants=['Emit']).replace('CONSTANTS\n', ''), name='refdealing')
+    if not res.ok:
+        raise vlib.Undecided('RefDealing: %s %s' % (res.violated, res.error))
+    matrix = tlc_cases(res.out)
+    if len(matrix) < 150:
+        raise vlib.Undecided('RefDealing enumeration produced %d cases' % len(matrix))
+    ck.add_states(res, 'dealings of a protocol-following dealer with a shaped polynomial: net x shape x delivery order')
     cases = []
     reps = 1 if tier == 'quick' else 6
     for r in range(reps):
-        for proto, n, t, dealer, silent in REFDEAL_NETS:
-            for shape in (only_shapes or REFDEAL_SHAPES):
-                if shape == 'root' and silent < 0:
-                    continue
-                for order in (0, 1, 2):
-                    cases.append({'id': 'rd-%d' % len(cases), 'proto': proto, 'n': n, 't': t, 'dealer': dealer, 'shape': shape, 'silent': silent,
-                                  'order': order, 'seed': vlib.jseed(seed, len(cases), 77)})
-    # Joint-Feldman, the qualified polynomials sum to zero (a rushing dealer dealing the opposite of the real participant's polynomial)
-    for d in range(3):
-        for order in (0, 1):
-            cases.append({'id': 'rd-%d' % len(cases), 'proto': 'jf', 'n': 3, 't': 1, 'dealer': d, 'shape': 'cancel', 'silent': (d + 2) % 3,
-                          'order': order, 'seed': vlib.jseed(seed, len(cases), 78)})
+        for m in matrix:
+            if only_shapes and m['shape'] not in only_shapes and m['shape'] != 'cancel':
+                continue
+            cases.append(dict(m, id='rd-%d' % len(cases), seed=vlib.jseed(seed, len(cases), 77)))
     cp = os.path.join(vlib.subdir('scripts'), 'refdeal.ndjson')
     with open(cp, 'w') as f:
         for c in cases:
